@@ -444,6 +444,7 @@ def parse_dump(line):
 def predicate(j, dumps, lines):
     """problems of the library's own transcript against C04 / C11 (empty = holds)"""
     cont = j.c
+    cont._job = j              # for rate rules that depend on the session (VOC: which block type holds the rate)
     probs = []
     final, snap = dumps[2], dumps[1]
     reopen, rd, crash = lines[-4], lines[-3], lines[-1]
@@ -464,7 +465,7 @@ def predicate(j, dumps, lines):
         if not rd.startswith("ret=%d " % fr):
             probs.append("reading to end of file: %s, %d frames announced" % (rd[:40], fr))
         probs += cont.size_problems(j, final, fr)
-    if cont.rewrites:
+    if cont.rewrites and (j.parts[0] > 0 or not j.auto):      # C11 speaks about the store after an update / after a write call in auto mode
         if not crash.startswith("open=ok"):
             probs.append("[C11] the image left by the header update cannot be opened: " + crash)
         else:
